@@ -19,7 +19,7 @@ Fixpoint supported (t : node) : bool :=
       match l with [] => false | _ => true end &&
       (fix go (l : list node) : bool := match l with [] => true | x :: l' => supported x && go l' end) l
   | NCapture _ g u r => (u =? -1) && supported r
-  | NGroup r => supported r
+  | NGroup r | NAtomic r | NPosLook _ r | NNegLook _ r => supported r
   | NLoop _ _ m n r => (0 <=? m) && (n <=? INF) && supported r
   | _ => false
   end.
@@ -230,6 +230,9 @@ Proof.
     induction H as [|x l Hx Hl IH]; [exact I|]. inversion Hs; subst. split; [apply Hx; assumption|apply IH; assumption].
   - apply andb_prop in Hs. destruct Hs as [_ Hs]. split; [exact I|apply IHt; exact Hs].
   - apply andb_prop in Hs. destruct Hs as [_ Hs]. split; [exact I|apply IHt; exact Hs].
+  - split; [exact I|apply IHt; exact Hs].
+  - split; [exact I|apply IHt; exact Hs].
+  - split; [exact I|apply IHt; exact Hs].
   - split; [exact I|apply IHt; exact Hs].
 Qed.
 
